@@ -846,6 +846,7 @@ func (c *ClientConn) readDownstreamMetadataLoop() {
 		if ok {
 			ch, ok := chs[msg.SourceNodeID]
 			if !ok {
+				c.downstreams.mu.RUnlock()
 				continue
 			}
 			select {
